@@ -23,6 +23,9 @@ CHECKS = {
  "C05": ("stateless exhaustive exploration against a strong-Kleene three-valued reference evaluator (R2)",
          "Same space as C04 restricted to failure-free pairs: whenever Kleene evaluation is definite TryEval returns exactly that value; otherwise DNE (or an Eval-confirmed value), never an error; TryEvalBool mirrors with ErrDNE.",
          "Small-scope hypothesis; R2 is the reference three-valued semantics.", "4 C05"),
+ "C07": ("controlled cooperative scheduler + DFS over all thread interleavings up to a preemption bound (iterative context bounding) and exhaustive enumeration of sequential call histories, on the real Expr",
+         "11 shared compiled programs covering every evaluator branch; every sequential history of {Eval x bindings, TryEval x splits, Dump, DumpTable} up to depth 4 (5), and every interleaving of 2x1, 2x2 and 3x1 thread/call shapes up to 3/2 (5/3) preemptions with scheduling points at every fetcher/operator callback and call boundary: each call's outcome (value, error, ordered trace, argument stability across a yield) equals its isolated outcome and the public view of the program never changes; auxiliary free-running race-detector pass.",
+         "Scheduling granularity is the environment callback; sub-callback races are left to the race-detector pass and the post-call program comparison; preemption-bounded, not all schedules.", "4 C07"),
 }
 
 NOT_YET = {}
